@@ -11,7 +11,7 @@ cd /repo || exit 2
 if [ -n "$(git status --porcelain --untracked-files=no)" ]; then echo "try_mutant: /repo is not clean" >&2; exit 2; fi
 git apply --check "$PATCH" || { echo "try_mutant: patch does not apply" >&2; exit 2; }
 git apply "$PATCH"
-trap 'git -C /repo checkout -- . ' EXIT INT TERM
+trap 'git -C /repo checkout -- . ; git -C /repo clean -fdq' EXIT INT TERM
 T=$(cargo test --offline --lib 2>&1 | grep -E "^test result" | head -1)
 echo "unit tests with the change: $T"
 case "$T" in *"73 passed; 0 failed"*) ;; *) echo "try_mutant: the change does not pass the 73 unit tests"; exit 3;; esac
